@@ -10,6 +10,8 @@ Parts
            the same with exactly one injected structural fault -> an error-severity issue with the code of the broken rule.
 The expected codes come from the property statement / the HED specification (SIDECAR_INVALID, PLACEHOLDER_INVALID,
 SIDECAR_BRACES_INVALID; type faults may also carry the library's own type codes).
+  definitions  valid sidecars with a definitions column ('#' tag of the definition at depth 1, 2, 3 of its content) and uses
+           of the definitions -> no error issue; one faulty definition -> DEFINITION_INVALID in that column.
 """
 import copy
 import io
@@ -39,6 +41,8 @@ L_F_UNKNOWN = "C08.fault.ref_unknown_column"
 L_F_SELF = "C08.fault.ref_self"
 L_F_NESTED = "C08.fault.ref_nested"
 L_F_LOC = "C08.fault.location"
+L_DEF_VALID = "C08.valid.definitions_no_error"
+L_DEF_FAULT = "C08.defs.faulty_definition_reported"
 
 TYPE_CODES = {"SIDECAR_INVALID", "wrongHedDataType", "sidecarUnknownColumn", "blankValueString"}
 EXPECTED = {L_F_TYPE: TYPE_CODES, L_F_VPOUND: {"PLACEHOLDER_INVALID"}, L_F_CPOUND: {"PLACEHOLDER_INVALID"},
@@ -339,6 +343,84 @@ def valid_docs(quick):
     return list(uniq.values())
 
 
+# ------------------------------------------------------------------------------------------------ sidecars with definitions
+DEF_NAME = "Pdef"
+PLAIN_DEF = "(Definition/Plain, (Red, (Blue)))"
+
+
+def def_docs(quick):
+    """-> (valid documents, faulty documents).  A dummy column 'defs' holds definitions whose placeholder tag stands at
+    depth 1, 2, 3 of the content (layouts of rt/c09_depth.py); other columns use them (Def/Name/v at depth 0 and 2, the
+    written-out Def-expand group, Def/Name/# in a value column, a {reference} to the using column).  Valid: every string
+    is valid on its own (content with the value plugged in is checked as precondition) and all structural rules hold.
+    Faulty: the same sidecar with ONE definition broken (two '#', '##', '#' on a non-value tag, no '#', or a name without
+    '/#' on content with '#') - the C09 acceptance rule seen through the sidecar entry point."""
+    from rt import c09_depth as D
+    valid, faulty, strings = [], [], set()
+    k = 0
+    for ctext, depth, layout, nhash, on_value, v in D.single_slot_contents():
+        d1 = "(Definition/%s/#, %s)" % (DEF_NAME, ctext)
+        meta = {"layout": layout, "hash_depths": D.depth_of_hash(ctext), "definition": d1}
+        if v is None:
+            faulty.append(({"defs": {"HED": {"d1": d1, "d2": PLAIN_DEF}}, "cat": {"HED": {"a": "Red", "b": "(Def/Plain, Square)"}}},
+                           meta))
+            continue
+        k += 1
+        use = "Def/%s/%s" % (DEF_NAME, v)
+        plugged = ctext.replace("#", v)
+        strings.update([plugged, ctext])
+        text_placeholder = ctext.count("Label/#") == 1
+        val = "Def/%s/#, Blue" % DEF_NAME if text_placeholder else "Label/#"
+        variants = [
+            {"defs": {"HED": {"d1": d1, "d2": PLAIN_DEF}},
+             "cat": {"HED": {"a": use + ", Red", "b": "(Def/Plain, Square)"}}},
+            {"cat": {"HED": {"a": "(Circle, (%s, Triangle))" % use, "b": "Def/Plain"}}, "val": {"HED": val},
+             "defs": {"HED": {"d": d1 + ", " + PLAIN_DEF}}},
+            {"defs": {"HED": {"d1": d1}}, "cat": {"HED": {"a": "(Def-expand/%s/%s, %s), Cross" % (DEF_NAME, v, plugged)}}},
+            {"defs": {"Description": "definitions only", "HED": {"d2": PLAIN_DEF, "d1": d1}}, "cat": {"HED": {"a": use, "b": "Red"}},
+             "refc": {"HED": {"r": "(Square, {cat})"}}},
+        ]
+        for j, doc in enumerate(variants):
+            if quick and (j + k) % 2:
+                continue
+            valid.append((doc, dict(meta, variant=j)))
+        # the same content under a name without '/#'
+        if k % 4 == depth % 4:
+            d3 = "(Definition/Plain, %s)" % ctext
+            faulty.append(({"defs": {"HED": {"d1": d3}}, "cat": {"HED": {"a": "Red"}}}, dict(meta, definition=d3)))
+    for ctext, depths, layout, nhash, on_value, v in D.two_slot_contents():
+        d1 = "(Definition/%s/#, %s)" % (DEF_NAME, ctext)
+        meta = {"layout": layout, "hash_depths": D.depth_of_hash(ctext), "definition": d1}
+        if v is None:
+            faulty.append(({"cat": {"HED": {"a": "Red"}}, "defs": {"HED": {"d1": d1}}}, meta))
+        else:
+            strings.update([ctext.replace("#", v), ctext])
+            valid.append(({"defs": {"HED": {"d1": d1}}, "cat": {"HED": {"a": "Def/%s/%s" % (DEF_NAME, v)}}}, dict(meta, variant=0)))
+    return valid, faulty, sorted(strings)
+
+
+def check_def_valid(doc):
+    stage, payload = run_doc(json.dumps(doc))
+    if stage != "ok":
+        return [(L_TOTAL, False, f"{stage}: {payload}", "a list of issues, nothing raised")]
+    errs = [(i["code"], i.get("ec_sidecarColumnName"), i.get("ec_sidecarKeyName")) for i in error_issues(payload)]
+    return [(L_TOTAL, True, None, None), (L_DEF_VALID, not errs, errs, "no error-severity issue")]
+
+
+def check_def_fault(doc):
+    stage, payload = run_doc(json.dumps(doc))
+    if stage != "ok":
+        return [(L_TOTAL, False, f"{stage}: {payload}", "a list of issues, nothing raised")]
+    errs = error_issues(payload)
+    got = [(i["code"], i.get("ec_sidecarColumnName"), i.get("ec_sidecarKeyName")) for i in errs]
+    hit = [i for i in errs if i["code"] == "DEFINITION_INVALID"]
+    res = [(L_TOTAL, True, None, None), (L_DEF_FAULT, bool(hit), got, "an error with code DEFINITION_INVALID")]
+    if hit:
+        where = [i.get("ec_sidecarColumnName") for i in hit]
+        res.append((L_F_LOC, all(c is None or c == "defs" for c in where), where, {"column in": ["defs"]}))
+    return res
+
+
 # ------------------------------------------------------------------------------------------------ jobs
 def _job(job):
     _env()
@@ -351,6 +433,9 @@ def _job(job):
         elif item[0] == "valid":
             res = check_valid(item[1])
             inp = {"mode": "valid", "doc": item[1]}
+        elif item[0] in ("defvalid", "deffault"):
+            res = check_def_valid(item[1]) if item[0] == "defvalid" else check_def_fault(item[1])
+            inp = dict({"mode": item[0], "doc": item[1]}, **item[2])
         else:
             _, clause, desc, doc, involved = item
             res = check_fault(clause, doc, involved)
@@ -391,12 +476,12 @@ def _absorb(w, results, counters, prefix, items):
     return n
 
 
-def preconditions(w):
+def preconditions(w, extra=()):
     """generator precondition: every annotation string used to build the valid sidecars is valid on its own"""
     from hed.models.hed_string import HedString
     from hed.errors.error_types import ErrorSeverity
     S = _env()["schema"]
-    strings = set(EXTRA_STRINGS) | {"Gray", "Description/#"}
+    strings = set(EXTRA_STRINGS) | {"Gray", "Description/#"} | set(extra)
     for e in COLUMNS.values():
         if kind(e) == "cat":
             strings.update(e["HED"].values())
@@ -441,10 +526,27 @@ def run(w: Workload):
     w.part("faults", cases=n, bound="every applicable (layout, column, fault variant): type faults (6 wrong types for HED and for "
            "each category value), placeholder count (0, 2 in value; 1 in category), HED as column name, n/a key (added / renamed), "
            "9 unbalanced-brace shapes, unknown / ignored-column / self / nested reference", exhaustive=True, per_rule=per_rule)
+    dvalid, dfaulty, dstrings = def_docs(w.quick)
+    preconditions(w, dstrings)
+    ditems = [("defvalid", d, m) for d, m in dvalid] + [("deffault", d, m) for d, m in dfaulty]
+    n = _absorb(w, _par(ditems, 12), counters, "defs", ditems)
+    depths = {}
+    for _, _, m in ditems:
+        kk = "+".join(str(x) for x in m["hash_depths"]) or "none"
+        depths[kk] = depths.get(kk, 0) + 1
+    w.part("definitions", cases=n, bound=f"{len(dvalid)} valid sidecars: a definitions column whose '/#' definition has its "
+           "placeholder tag at depth 1, 2, 3 of the content (14 layouts x 4 value-taking tags; 7 two-group layouts), used as "
+           "Def/Name/v (top level, depth 2), as written-out Def-expand group, as Def/Name/# in a value column and through a "
+           f"{{reference}} (quick: every second variant); {len(dfaulty)} sidecars with one faulty definition (two '#', '##', '#' on a "
+           "non-value tag, no '#', name without '/#') at every depth; documents by depth(s) of the '#': "
+           f"{dict(sorted(depths.items()))}", exhaustive=False)
     w.bounded[-1]["checks_per_clause"] = counters
     w.exhaustive = False
     w.not_covered += ["documents deeper than 3 levels or with more than 2 members per container; more than 2 columns in part 'total'",
-                      "several faults at once; faults combined with invalid annotation strings; definitions in sidecars",
+                      "several faults at once; faults combined with invalid annotation strings; definitions other than one '/#' "
+                      "definition + one plain definition in a categorical dummy column; Def/Name/# in a value column when the "
+                      "definition's placeholder carries a unit ('Speed/# mph': observed VALUE_INVALID/UNITS_INVALID/DEF_INVALID on "
+                      "'Def/Name/#', not judged - HedString.validate does not call the string individually valid either)",
                       "the rule 'HED key nested inside an ignored column' (not in the statement)",
                       "sidecars given as several merged files; validate(extra_def_dicts=...)",
                       "location fields are only checked not to name a column outside the fault (the statement asks for the code)"]
@@ -457,7 +559,11 @@ def replay(w: Workload, case: dict):
     clause = case["clause"]
     _env()
     w.case(key="replay")
-    if inp["mode"] == "total":
+    if inp["mode"] == "defvalid":
+        res = check_def_valid(inp["doc"])
+    elif inp["mode"] == "deffault":
+        res = check_def_fault(inp["doc"])
+    elif inp["mode"] == "total":
         res = check_total(inp["doc"])
     elif inp["mode"] == "valid":
         res = check_valid(inp["doc"])
